@@ -110,4 +110,223 @@ theorem books (now : Nat) (i : Info) :
 example : select (.auto 3 100) [some {time := 50}, some {time := 10}, none, some {time := 30}, some {time := 200}, some {time := 30}]
     = [false, true, false, true, false, true] := by decide
 
+/-! ### sorted times -/
+
+theorem insertSorted_pairwise (x : Nat) (l : List Nat) (h : l.Pairwise (· ≤ ·)) : (insertSorted x l).Pairwise (· ≤ ·) := by
+  induction l with
+  | nil => simp [insertSorted]
+  | cons y ys ih =>
+    simp only [insertSorted]
+    split
+    · rename_i hxy
+      rw [List.pairwise_cons]
+      refine ⟨?_, h⟩
+      intro z hz
+      rcases List.mem_cons.mp hz with rfl | hz'
+      · exact hxy
+      · exact Nat.le_trans hxy ((List.pairwise_cons.mp h).1 z hz')
+    · rename_i hxy
+      rw [List.pairwise_cons] at h ⊢
+      refine ⟨?_, ih h.2⟩
+      intro z hz
+      have : z = x ∨ z ∈ ys := by
+        have hm : ∀ (l : List Nat) z, z ∈ insertSorted x l → z = x ∨ z ∈ l := by
+          intro l
+          induction l with
+          | nil => intro z hz; simp [insertSorted] at hz; exact Or.inl hz
+          | cons a as iha =>
+            intro z hz
+            simp only [insertSorted] at hz
+            split at hz
+            · rcases List.mem_cons.mp hz with h1 | h1
+              · exact Or.inl h1
+              · exact Or.inr h1
+            · rcases List.mem_cons.mp hz with h1 | h1
+              · exact Or.inr (by rw [h1]; exact List.mem_cons_self ..)
+              · rcases iha z h1 with h2 | h2
+                · exact Or.inl h2
+                · exact Or.inr (List.mem_cons_of_mem _ h2)
+        exact hm ys z hz
+      rcases this with rfl | hz'
+      · omega
+      · exact h.1 z hz'
+
+theorem sortTimes_pairwise (l : List Nat) : (sortTimes l).Pairwise (· ≤ ·) := by
+  induction l with
+  | nil => simp [sortTimes]
+  | cons x xs ih => exact insertSorted_pairwise x _ ih
+
+theorem insertSorted_countP (p : Nat → Bool) (x : Nat) (l : List Nat) :
+    (insertSorted x l).countP p = (x :: l).countP p := by
+  induction l with
+  | nil => rfl
+  | cons y ys ih =>
+    simp only [insertSorted]
+    split
+    · rfl
+    · simp only [List.countP_cons] at ih ⊢
+      rw [ih]; omega
+
+theorem sortTimes_countP (p : Nat → Bool) (l : List Nat) : (sortTimes l).countP p = l.countP p := by
+  induction l with
+  | nil => rfl
+  | cons x xs ih =>
+    simp only [sortTimes]
+    rw [insertSorted_countP, List.countP_cons, List.countP_cons, ih]
+
+/-- in a sorted list whose entry `k` is ≥ v, at most `k` entries are < v -/
+theorem sorted_count_lt (T : List Nat) (hs : T.Pairwise (· ≤ ·)) (k v : Nat) (hk : k < T.length) (hv : v ≤ T.getD k 0) :
+    T.countP (fun t => decide (t < v)) ≤ k := by
+  induction T generalizing k with
+  | nil => simp at hk
+  | cons a as ih =>
+    rw [List.pairwise_cons] at hs
+    cases k with
+    | zero =>
+      simp only [List.getD_cons_zero] at hv
+      have : ∀ t ∈ a :: as, ¬ (t < v) := by
+        intro t ht
+        rcases List.mem_cons.mp ht with rfl | ht'
+        · omega
+        · have := hs.1 t ht'; omega
+      rw [List.countP_eq_zero.mpr (by intro t ht; simpa using this t ht)]
+      exact Nat.le_refl 0
+    | succ k' =>
+      simp only [List.getD_cons_succ] at hv
+      have := ih hs.2 k' (by simpa using hk) hv
+      rw [List.countP_cons]
+      split <;> omega
+
+theorem lowerCount_le (s : List Nat) (rr n : Nat) : lowerCount s rr n ≤ n := by
+  induction n with
+  | zero => simp [lowerCount]
+  | succ n ih => simp only [lowerCount]; split <;> omega
+
+/-- `lastRun` only extends a run of entries equal to the time limit that ends at index c-1 -/
+theorem lastRun_spec (T : List Nat) (c tl : Nat) (fuel last : Nat)
+    (hrun : ∀ j, 1 ≤ j → j ≤ last → T.getD (c - j) 0 = tl) (hle : last ≤ c) :
+    (∀ j, 1 ≤ j → j ≤ lastRun T c tl fuel last → T.getD (c - j) 0 = tl) ∧
+      lastRun T c tl fuel last ≤ c ∧ last ≤ lastRun T c tl fuel last := by
+  induction fuel generalizing last with
+  | zero => exact ⟨hrun, hle, Nat.le_refl _⟩
+  | succ f ih =>
+    simp only [lastRun]
+    split
+    · rename_i hc
+      have := ih (last + 1) (by
+        intro j h1 h2
+        by_cases hj : j ≤ last
+        · exact hrun j h1 hj
+        · have : j = last + 1 := by omega
+          subst this
+          have e : c - (last + 1) = c - last - 1 := by omega
+          rw [e]; exact hc.2) (by omega)
+      exact ⟨this.1, this.2.1, by omega⟩
+    · exact ⟨hrun, hle, Nat.le_refl _⟩
+
+/-- number of used stripes strictly older than the time limit -/
+def nLess (tl : Nat) (is : List (Option Info)) : Nat :=
+  is.countP fun i => match i with | some x => decide (x.time < tl) | none => false
+
+/-- number of selected stripes that are not marked bad -/
+def selNonBad : List Bool → List (Option Info) → Nat
+  | b :: bs, some i :: is => (if b && !i.bad then 1 else 0) + selNonBad bs is
+  | _ :: bs, none :: is => selNonBad bs is
+  | _, _ => 0
+
+theorem sel_bound (c r : Nat) (lim : Limits) (is : List (Option Info)) (pos cl : Nat) (h : cl ≤ lim.lastlimit) :
+    selNonBad (selectFrom (.auto c r) lim pos cl is) is + cl ≤ nLess lim.timelimit is + lim.lastlimit := by
+  induction is generalizing pos cl with
+  | nil => simp [selectFrom, selNonBad, nLess]; exact h
+  | cons i rest ih =>
+    cases i with
+    | none =>
+      simp only [selectFrom, enabled, selNonBad, nLess, List.countP_cons]
+      have := ih (pos + 1) cl h
+      simp only [nLess] at this
+      simpa using this
+    | some x =>
+      simp only [selectFrom, selNonBad, nLess, List.countP_cons]
+      by_cases hb : x.bad = true
+      · simp only [enabled, hb, if_true, Bool.not_true, Bool.and_false, Bool.false_eq_true, if_false, Nat.zero_add]
+        have := ih (pos + 1) cl h
+        simp only [nLess] at this
+        split <;> omega
+      · have hbf : x.bad = false := by cases hx : x.bad <;> simp_all
+        simp only [enabled, hbf, Bool.false_eq_true, if_false]
+        by_cases hgt : x.time > lim.timelimit
+        · simp only [hgt, if_true, Bool.false_and, Bool.false_eq_true, if_false, Nat.zero_add]
+          have := ih (pos + 1) cl h
+          simp only [nLess] at this
+          have hn : ¬ (x.time < lim.timelimit) := by omega
+          simp only [hn, decide_false, Bool.false_eq_true, if_false]
+          omega
+        · simp only [hgt, if_false]
+          by_cases heq : x.time = lim.timelimit
+          · simp only [heq, if_true]
+            have hn : ¬ (lim.timelimit < lim.timelimit) := by omega
+            by_cases hcl : cl ≥ lim.lastlimit
+            · simp only [hcl, if_true, Bool.false_and, Bool.false_eq_true, if_false, Nat.zero_add]
+              have := ih (pos + 1) cl h
+              simp only [nLess] at this
+              simp only [hn, decide_false, Bool.false_eq_true, if_false]
+              omega
+            · simp only [hcl, if_false, Bool.not_false, Bool.and_self, if_true]
+              have := ih (pos + 1) (cl + 1) (by omega)
+              simp only [nLess] at this
+              simp only [hn, decide_false, Bool.false_eq_true, if_false]
+              omega
+          · simp only [heq, if_false, Bool.not_false, Bool.and_self, if_true]
+            have := ih (pos + 1) cl h
+            simp only [nLess] at this
+            have hl : x.time < lim.timelimit := by omega
+            simp only [hl, decide_true, if_true]
+            omega
+
+theorem nLess_eq (tl : Nat) (is : List (Option Info)) :
+    nLess tl is = (is.filterMap fun i => i.map (·.time)).countP (fun t => decide (t < tl)) := by
+  induction is with
+  | nil => rfl
+  | cons i rest ih =>
+    cases i with
+    | none => simp only [nLess, List.countP_cons, List.filterMap_cons, Option.map_none] at ih ⊢; simpa using ih
+    | some x =>
+      simp only [nLess, List.countP_cons, List.filterMap_cons, Option.map_some] at ih ⊢
+      rw [ih]
+
+/-- **no more than the requested share**: the non-bad stripes selected by a percentage plan are at
+    most `countlimit` (itself ≤ the requested count, `countlimit_le`), for every distribution of
+    check times -/
+theorem auto_bound (infos : List (Option Info)) (c r : Nat) :
+    selNonBad (select (.auto c r) infos) infos ≤ (limits infos c r).countlimit := by
+  have hb := sel_bound c r (limits infos c r) infos 0 0 (Nat.zero_le _)
+  simp only [select, planLimits]
+  have key : nLess (limits infos c r).timelimit infos + (limits infos c r).lastlimit ≤ (limits infos c r).countlimit := by
+    rw [nLess_eq]
+    unfold limits
+    simp only
+    generalize hT : sortTimes (infos.filterMap fun i => i.map (·.time)) = T
+    have hsorted : T.Pairwise (· ≤ ·) := by rw [← hT]; exact sortTimes_pairwise _
+    have hcount : ∀ v, (infos.filterMap fun i => i.map (·.time)).countP (fun t => decide (t < v)) = T.countP (fun t => decide (t < v)) := by
+      intro v; rw [← hT, sortTimes_countP]
+    split
+    · rename_i hpos
+      simp only
+      generalize hc : lowerCount T r (min c T.length) = cc at hpos ⊢
+      have hcc : cc ≤ T.length := by
+        rw [← hc]; exact Nat.le_trans (lowerCount_le _ _ _) (Nat.min_le_right _ _)
+      obtain ⟨hrun, hle, hge⟩ := lastRun_spec T cc (T.getD (cc - 1) 0) cc 1
+        (by intro j h1 h2; have : j = 1 := by omega
+            subst this; rfl) (by omega)
+      generalize hL : lastRun T cc (T.getD (cc - 1) 0) cc 1 = L at hrun hle hge ⊢
+      rw [hcount]
+      have := sorted_count_lt T hsorted (cc - L) (T.getD (cc - 1) 0) (by omega) (by rw [hrun L (by omega) (Nat.le_refl _)]; exact Nat.le_refl _)
+      omega
+    · simp only [Nat.add_zero, Nat.le_zero]
+      rw [hcount]
+      apply List.countP_eq_zero.mpr
+      intro t _; simp
+  omega
+
+
 end SnapraidVerif.Props.C15
